@@ -111,4 +111,354 @@ theorem unescape_escape (len : Bool) (s : List Char) : unescape len (escape s) =
   | nil => simp [escape, unescape]
   | cons c s ih => rw [escape_cons, unescape_escChar, ih]; rfl
 
+/-! ### integers -/
+
+theorem digitVal_digitChar : ∀ d, d < 10 → digitVal (digitChar d) = some d := by decide
+
+theorem parseDigits_append (acc : Nat) (s : List Char) (c : Char) :
+    parseDigits acc (s ++ [c]) =
+      (parseDigits acc s).bind fun n => (digitVal c).map fun d => n * 10 + d := by
+  induction s generalizing acc with
+  | nil =>
+    simp only [List.nil_append, parseDigits]
+    cases digitVal c <;> simp
+  | cons x s ih =>
+    simp only [List.cons_append, parseDigits]
+    cases digitVal x with
+    | none => simp
+    | some d => simp [ih]
+
+theorem natDigits_lt (n : Nat) (h : n < 10) : natDigits n = [digitChar n] := by
+  rw [natDigits]; simp [h]
+
+theorem natDigits_ge (n : Nat) (h : ¬ n < 10) :
+    natDigits n = natDigits (n / 10) ++ [digitChar (n % 10)] := by
+  rw [natDigits]; simp [h]
+
+theorem parseDigits_natDigits (n : Nat) : parseDigits 0 (natDigits n) = some n := by
+  induction n using Nat.strongRecOn with
+  | _ n ih =>
+    by_cases h : n < 10
+    · rw [natDigits_lt n h]; simp [parseDigits, digitVal_digitChar n h]
+    · rw [natDigits_ge n h, parseDigits_append, ih (n / 10) (by omega)]
+      simp [digitVal_digitChar (n % 10) (by omega)]
+      omega
+
+theorem natDigits_ne_nil (n : Nat) : natDigits n ≠ [] := by
+  by_cases h : n < 10
+  · rw [natDigits_lt n h]; simp
+  · rw [natDigits_ge n h]; simp
+
+theorem natDigits_all_digits (n : Nat) : ∀ c ∈ natDigits n, ∃ d, d < 10 ∧ c = digitChar d := by
+  induction n using Nat.strongRecOn with
+  | _ n ih =>
+    by_cases h : n < 10
+    · rw [natDigits_lt n h]; intro c hc; simp at hc; exact ⟨n, h, hc⟩
+    · rw [natDigits_ge n h]; intro c hc
+      rcases List.mem_append.mp hc with hc | hc
+      · exact ih (n / 10) (by omega) c hc
+      · simp at hc; exact ⟨n % 10, by omega, hc⟩
+
+theorem parseNat_natDigits (n : Nat) : parseNat (natDigits n) = some n := by
+  unfold parseNat
+  have := natDigits_ne_nil n
+  cases hd : natDigits n with
+  | nil => exact absurd hd this
+  | cons c t => simp [← hd, parseDigits_natDigits, this]
+
+theorem digitChar_ne_minus : ∀ d, d < 10 → digitChar d ≠ '-' := by decide
+
+theorem parseInt_natDigits (n : Nat) : parseInt (natDigits n) = some (n : Int) := by
+  cases hd : natDigits n with
+  | nil => exact absurd hd (natDigits_ne_nil n)
+  | cons c t =>
+    have hc : c ≠ '-' := by
+      obtain ⟨d, hd10, hcd⟩ := natDigits_all_digits n c (by rw [hd]; simp)
+      rw [hcd]; exact digitChar_ne_minus d hd10
+    have : parseInt (c :: t) = (parseNat (c :: t)).map fun n => (n : Int) := by
+      unfold parseInt
+      split
+      · next h => injection h with h1 _; exact absurd h1 hc
+      · rfl
+    rw [this, ← hd, parseNat_natDigits]; rfl
+
+/-- **Round trip of integers**: the decimal text of any integer is read back as that integer. -/
+theorem parseInt_printInt (i : Int) : parseInt (printInt i) = some i := by
+  cases i with
+  | ofNat n => exact parseInt_natDigits n
+  | negSucc n =>
+    simp only [printInt, parseInt, parseNat_natDigits]
+    congr 1
+
+theorem parseI64_printInt (i : Int) (h : inI64 i = true) : parseI64 (printInt i) = some i := by
+  simp [parseI64, parseInt_printInt, h]
+
+/-! ### literals -/
+
+theorem litDecode_cons_cons (c e : Char) (t : List Char) :
+    litDecode (c :: e :: t) = if c = '\\' ∧ e = '"' then '"' :: litDecode t else c :: litDecode (e :: t) := rfl
+
+theorem litDecode_cons_of_ne (c : Char) (r : List Char) (h : c ≠ '\\') :
+    litDecode (c :: r) = c :: litDecode r := by
+  cases r with
+  | nil => rfl
+  | cons e t => rw [litDecode_cons_cons]; simp [h]
+
+theorem litDecode_bs (r : List Char) (h : r.head? ≠ some '"') :
+    litDecode ('\\' :: r) = '\\' :: litDecode r := by
+  cases r with
+  | nil => rfl
+  | cons e t =>
+    rw [litDecode_cons_cons]
+    have : e ≠ '"' := by intro he; apply h; simp [he]
+    simp [this]
+
+/-- what a character of the value becomes when it is spelled as a JSON escape and decoded by the parsers -/
+def litImage (c : Char) : List Char := if c = '"' then ['"'] else escChar c
+
+theorem escChar_head_ne_quote (c : Char) : (escChar c).head? ≠ some '"' := by
+  unfold escChar
+  repeat' split
+  all_goals simp_all
+  all_goals (intro h; simp_all)
+
+theorem escChar_ne_nil (c : Char) : escChar c ≠ [] := by
+  unfold escChar
+  repeat' split
+  all_goals simp
+
+theorem escape_head_ne_quote (s : List Char) : (escape s).head? ≠ some '"' := by
+  cases s with
+  | nil => simp [escape]
+  | cons c s =>
+    rw [escape_cons]
+    have h1 := escChar_head_ne_quote c
+    have h2 := escChar_ne_nil c
+    cases h : escChar c with
+    | nil => exact absurd h h2
+    | cons x xs => rw [h] at h1; simpa using h1
+
+theorem hexDigit_ne_bs : ∀ n, n < 16 → hexDigit n ≠ '\\' := by decide
+
+theorem litDecode_escChar (c : Char) (r : List Char) (hr : r.head? ≠ some '"') :
+    litDecode (escChar c ++ r) = litImage c ++ litDecode r := by
+  unfold litImage escChar
+  split
+  · next h => subst h; rfl
+  split
+  · next h =>
+    subst h
+    show litDecode ('\\' :: '\\' :: r) = _
+    rw [litDecode_cons_cons, if_neg (by decide), litDecode_bs r hr]; rfl
+  split
+  · show litDecode ('\\' :: 'b' :: r) = _
+    rw [litDecode_bs _ (by simp), litDecode_cons_of_ne _ _ (by decide)]; rfl
+  split
+  · show litDecode ('\\' :: 't' :: r) = _
+    rw [litDecode_bs _ (by simp), litDecode_cons_of_ne _ _ (by decide)]; rfl
+  split
+  · show litDecode ('\\' :: 'n' :: r) = _
+    rw [litDecode_bs _ (by simp), litDecode_cons_of_ne _ _ (by decide)]; rfl
+  split
+  · show litDecode ('\\' :: 'f' :: r) = _
+    rw [litDecode_bs _ (by simp), litDecode_cons_of_ne _ _ (by decide)]; rfl
+  split
+  · show litDecode ('\\' :: 'r' :: r) = _
+    rw [litDecode_bs _ (by simp), litDecode_cons_of_ne _ _ (by decide)]; rfl
+  split
+  · next h =>
+    show litDecode ('\\' :: 'u' :: '0' :: '0' :: hexDigit (c.toNat / 16) :: hexDigit (c.toNat % 16) :: r) = _
+    rw [litDecode_bs _ (by simp), litDecode_cons_of_ne _ _ (by decide), litDecode_cons_of_ne _ _ (by decide),
+      litDecode_cons_of_ne _ _ (by decide), litDecode_cons_of_ne _ _ (hexDigit_ne_bs _ (by omega)),
+      litDecode_cons_of_ne _ _ (hexDigit_ne_bs _ (by omega))]
+    rfl
+  · next h1 h2 _ _ _ _ _ _ =>
+    show litDecode (c :: r) = _
+    rw [litDecode_cons_of_ne _ _ h2]; rfl
+
+theorem litDecode_escape (s : List Char) : litDecode (escape s) = s.flatMap litImage := by
+  induction s with
+  | nil => rfl
+  | cons c s ih =>
+    rw [escape_cons, litDecode_escChar c _ (escape_head_ne_quote s), ih]; rfl
+
+theorem litImage_length_pos (c : Char) : 1 ≤ (litImage c).length := by
+  unfold litImage escChar
+  repeat' split
+  all_goals simp
+
+theorem litImage_eq_self (c : Char) (h : c ≠ '\\' ∧ 32 ≤ c.toNat) : litImage c = [c] := by
+  unfold litImage escChar
+  obtain ⟨h1, h2⟩ := h
+  by_cases hq : c = '"'
+  · simp [hq]
+  · have : ¬ c.toNat = 8 ∧ ¬ c.toNat = 9 ∧ ¬ c.toNat = 10 ∧ ¬ c.toNat = 12 ∧ ¬ c.toNat = 13 ∧ ¬ c.toNat < 32 := by omega
+    simp [hq, h1, this]
+
+theorem litImage_length_one (c : Char) (h : (litImage c).length = 1) : c ≠ '\\' ∧ 32 ≤ c.toNat := by
+  unfold litImage escChar at h
+  by_cases hq : c = '"'
+  · subst hq; decide
+  · simp only [hq, if_false] at h
+    by_cases h1 : c = '\\'
+    · simp [h1] at h
+    · simp only [h1, if_false] at h
+      refine ⟨h1, ?_⟩
+      by_cases h8 : c.toNat = 8
+      · simp [h8] at h
+      by_cases h9 : c.toNat = 9
+      · simp [h9] at h
+      by_cases h10 : c.toNat = 10
+      · simp [h10] at h
+      by_cases h12 : c.toNat = 12
+      · simp [h12] at h
+      by_cases h13 : c.toNat = 13
+      · simp [h13] at h
+      by_cases h32 : c.toNat < 32
+      · simp [h8, h9, h10, h12, h13, h32] at h
+      · omega
+
+theorem flatMap_litImage_length (s : List Char) : s.length ≤ (s.flatMap litImage).length := by
+  induction s with
+  | nil => simp
+  | cons c s ih =>
+    simp only [List.flatMap_cons, List.length_append, List.length_cons]
+    have := litImage_length_pos c
+    omega
+
+theorem flatMap_litImage_eq_iff (s : List Char) :
+    s.flatMap litImage = s ↔ ∀ c ∈ s, c ≠ '\\' ∧ 32 ≤ c.toNat := by
+  induction s with
+  | nil => simp
+  | cons c s ih =>
+    constructor
+    · intro h
+      have hl := congrArg List.length h
+      simp only [List.flatMap_cons, List.length_append, List.length_cons] at hl
+      have h1 := litImage_length_pos c
+      have h2 := flatMap_litImage_length s
+      have hc1 : (litImage c).length = 1 := by omega
+      have hc := litImage_length_one c hc1
+      rw [List.flatMap_cons, litImage_eq_self c hc] at h
+      simp only [List.singleton_append, List.cons.injEq, true_and] at h
+      intro x hx
+      rcases List.mem_cons.mp hx with hx | hx
+      · subst hx; exact hc
+      · exact (ih.mp h) x hx
+    · intro h
+      rw [List.flatMap_cons, litImage_eq_self c (h c (by simp)), (ih.mpr fun x hx => h x (by simp [hx]))]
+      rfl
+
+/-- a string literal body in which every backslash is followed by a double quote (and no raw quote) -/
+def plainLit : List Char → Bool
+  | [] => true
+  | [c] => !(c = '\\' || c = '"')
+  | c :: e :: t =>
+    if c = '\\' then e = '"' && plainLit t
+    else c != '"' && plainLit (e :: t)
+
+theorem plainLit_cons_cons (c e : Char) (t : List Char) :
+    plainLit (c :: e :: t) = if c = '\\' then (decide (e = '"') && plainLit t) else (c != '"' && plainLit (e :: t)) := rfl
+
+theorem plainLit_unescape (b : List Char) (h : plainLit b = true) :
+    unescape true b = some (litDecode b) := by
+  induction hn : b.length using Nat.strongRecOn generalizing b with
+  | _ n ih =>
+    match b, h, hn with
+    | [], _, _ => rfl
+    | [c], h, _ =>
+      simp only [plainLit, Bool.not_eq_true', Bool.or_eq_false_iff, decide_eq_false_iff_not] at h
+      rw [unescape.eq_2]; simp [h.1, h.2, litDecode]
+    | c :: e :: t, h, hn =>
+      rw [plainLit_cons_cons] at h
+      by_cases hc : c = '\\'
+      · simp only [hc, if_true, Bool.and_eq_true, decide_eq_true_eq] at h
+        obtain ⟨he, ht⟩ := h
+        subst hc; subst he
+        rw [unescape_simple true '"' '"' t (by decide) (by decide), litDecode_cons_cons]
+        simp only [and_self, if_true]
+        rw [ih t.length (by simp at hn; omega) t ht rfl]; rfl
+      · simp only [hc, if_false, Bool.and_eq_true, bne_iff_ne, ne_eq] at h
+        obtain ⟨hq, ht⟩ := h
+        rw [unescape_raw true c (e :: t) hc hq (Or.inl rfl), litDecode_cons_of_ne c (e :: t) hc]
+        rw [ih (e :: t).length (by simp at hn ⊢; omega) (e :: t) ht rfl]; rfl
+
+/-! ### storage and read-back -/
+
+theorem readJson_str (s : List Char) : readJson ('"' :: (escape s ++ ['"'])) = some (.str s) := by
+  simp [readJson, unescape_escape]
+
+theorem digitChar_not_special : ∀ d, d < 10 →
+    digitChar d ≠ '"' ∧ digitChar d ≠ 'n' ∧ digitChar d ≠ 't' ∧ digitChar d ≠ 'f' := by decide
+
+theorem printInt_head (i : Int) : ∃ c t, printInt i = c :: t ∧ (c = '-' ∨ ∃ d, d < 10 ∧ c = digitChar d) := by
+  cases i with
+  | ofNat n =>
+    cases hd : natDigits n with
+    | nil => exact absurd hd (natDigits_ne_nil n)
+    | cons c t =>
+      refine ⟨c, t, by simp [printInt, hd], Or.inr ?_⟩
+      exact natDigits_all_digits n c (by rw [hd]; simp)
+  | negSucc n => exact ⟨'-', natDigits (n + 1), rfl, Or.inl rfl⟩
+
+theorem readJson_int (i : Int) : readJson (printInt i) = some (.int i) := by
+  obtain ⟨c, t, hp, hc⟩ := printInt_head i
+  have h4 : c ≠ '"' ∧ c ≠ 'n' ∧ c ≠ 't' ∧ c ≠ 'f' := by
+    rcases hc with hc | ⟨d, hd, hc⟩
+    · subst hc; decide
+    · subst hc; exact digitChar_not_special d hd
+  have hpi := parseInt_printInt i
+  rw [hp] at hpi ⊢
+  unfold readJson
+  split
+  · next rest heq => injection heq with h1 _; exact absurd h1 h4.1
+  · have n1 : ¬ (c :: t = "null".toList) := by
+      intro h; injection h with h1 _; exact h4.2.1 h1
+    have n2 : ¬ (c :: t = "true".toList) := by
+      intro h; injection h with h1 _; exact h4.2.2.1 h1
+    have n3 : ¬ (c :: t = "false".toList) := by
+      intro h; injection h with h1 _; exact h4.2.2.2 h1
+    simp only [n1, n2, n3, if_false, hpi, Option.map_some]
+
+/-- the scalars whose JSON text the model renders -/
+def Scalar.transparent : Scalar → Bool
+  | .float _ _ => false
+  | .json _ => false
+  | _ => true
+
+/-- **Round trip of a stored scalar**: the JSON text written for it, re-emitted by SQLite and read by
+    the client, is that scalar. -/
+theorem readJson_jsonText (v : Scalar) (h : v.transparent = true) :
+    readJson (reemit (jsonText v)) = some v := by
+  cases v with
+  | null => rfl
+  | bool b => cases b <;> rfl
+  | int i => exact readJson_int i
+  | str s => exact readJson_str s
+  | float b t => simp [Scalar.transparent] at h
+  | json t => simp [Scalar.transparent] at h
+
+theorem admitParam_eq (ty : FieldTy) (nul : Bool) (v s : Scalar) (h : admitParam ty nul v = .ok s) : s = v := by
+  cases v <;> cases ty <;> simp only [admitParam] at h <;>
+    first
+      | (split at h <;> first | (injection h with h; exact h.symm) | (cases h))
+      | (injection h with h; exact h.symm)
+      | (cases h)
+
+/-! ### filters -/
+
+theorem sqlEq_refl (a : Scalar) (h : a ≠ .null) : sqlEq (some a) a = true := by
+  cases a <;> simp_all [sqlEq]
+
+theorem sqlEq_eq (a b : Scalar) (ha : a.transparent = true) (h : sqlEq (some a) b = true) : a = b := by
+  cases a <;> cases b <;> simp_all [sqlEq, Scalar.transparent]
+
+theorem digitChar_range : ∀ d, d < 10 → 48 ≤ (digitChar d).toNat ∧ (digitChar d).toNat ≤ 57 := by decide
+
+theorem natDigits_chars (n : Nat) : ∀ c ∈ natDigits n, 48 ≤ c.toNat ∧ c.toNat ≤ 57 := by
+  intro c hc
+  obtain ⟨d, hd, hcd⟩ := natDigits_all_digits n c hc
+  subst hcd
+  exact digitChar_range d hd
+
 end Discret.Value
